@@ -464,16 +464,25 @@ def render_dependencies(content: TContent, type: RenderType = "document") -> TCo
             )
         return replacement
 
+    content_before_replace = content_
     content_ = PLACEHOLDER_REGEX.sub(on_replace_match, content_)
 
     # By default, if user didn't specify any `{% component_dependencies %}`,
     # then try to insert the JS scripts at the end of <body> and CSS sheets at the end
     # of <head>
     if type == "document" and (not did_find_js_placeholder or not did_find_css_placeholder):
+        # The `</head>` and `</body>` tags are searched in the HTML we were given, NOT inside the JS / CSS
+        # that we have just inserted at the placeholders (a script may contain the text "</head>").
+        # So we search in a copy where the inserted parts are blanked out, keeping all positions.
+        masked = PLACEHOLDER_REGEX.sub(
+            lambda m: b"\x00" * len(on_replace_match(m).decode()),
+            content_before_replace,
+        )
         maybe_transformed = _insert_js_css_to_default_locations(
             content_.decode(),
             css_content=None if did_find_css_placeholder else css_dependencies.decode(),
             js_content=None if did_find_js_placeholder else js_dependencies.decode(),
+            search_content=masked.decode(),
         )
 
         if maybe_transformed is not None:
@@ -891,6 +900,7 @@ def _insert_js_css_to_default_locations(
     html_content: str,
     js_content: Optional[str],
     css_content: Optional[str],
+    search_content: Optional[str] = None,
 ) -> Optional[str]:
     """
     This function tries to insert the JS and CSS content into the default locations.
@@ -908,7 +918,8 @@ def _insert_js_css_to_default_locations(
     last_end_body_tag_index = None
 
     # First check the content for the first `</head>` and last `</body>` tags
-    for match in head_or_body_end_tag_re.finditer(html_content):
+    # `search_content`, if given, has the same length as `html_content`
+    for match in head_or_body_end_tag_re.finditer(html_content if search_content is None else search_content):
         tag_name = match[0][2:6]
 
         # We target the first `</head>`, thus, after we set it, we skip the rest
